@@ -296,9 +296,7 @@ class DelAttrMethod(MethodDescriptor):
 
             # Look up the default where the constructor does: default factories
             # are evaluated and overrides of the class attribute in (plain)
-            # subclasses are respected. The value is a fresh copy. (No preparer
-            # is run, so that resetting dependants during invalidation does not
-            # invoke user callbacks.)
+            # subclasses are respected. The value is a fresh copy.
             default = MISSING
             if not force and attr_spec and not attr_spec.is_masked:
                 default = attr_spec.lookup_default_value(type(self))
@@ -310,13 +308,11 @@ class DelAttrMethod(MethodDescriptor):
                         invalidate_attrs(self, attr)
                 return None
 
-            return mutate_attr(
-                obj=self,
-                attr=attr,
-                value=default,
-                inplace=True,
-                force=True,
-                skip_invalidation=skip_invalidation,
+            # The default goes through the same preparation as in the
+            # constructor (preparers, casting into the declared collection
+            # type), so that a reset attribute equals a freshly constructed one.
+            return self.__setattr__(
+                attr, default, force=True, skip_invalidation=skip_invalidation
             )
 
         # Add reference to original __delattr__
